@@ -77,6 +77,24 @@ NOTES = {
     "C17-m7": "missed by the first version of the check; caught after set+mset / mset+set were added to the v1 option sets",
     "C17-m8": "missed by the first version of the check; caught after lists of 60-150 numbers with a few moved by less than eps were added to the precision pairs",
     "C18-m8": "missed by the first version of the check; caught after the C18 'patched' leg was added (a' from a v1 strict Patch, then merge / patch renderings of a'.Diff(b) evaluated and read back)",
+    "C01-m10": "missed by the first version of the check; caught after arrays of 1025-1200 elements of equal length with one or two substituted elements (first, middle, last-but-one, last) or one element gone were added",
+    "C02-m9": "missed by the first version of the check; caught after strings that look like terminal colour sequences without the escape byte ([m], [10m], a[1;2m, [31mFAILED[0m) were added to the payload pool",
+    "C04-m9": "missed by the first version of the check (number lists under Precision had 60-150 elements); caught after 15% of them got 1024-1200 elements",
+    "C04-m10": "missed by the first version of the check; caught after pairs of pairs of small whole numbers whose 64-bit content codes have the same XOR (or the same sum) were added (found by a search at start-up): [a,b] against [c,d] under SET",
+    "C06-m9": "caught by the 8-byte-string / same-bytes-number pairs facing each other in a list, added to C06 in this round (the alias pairs existed in C04/C05 since D3)",
+    "C06-m10": "caught by identifier-like strings (and two-decimal numbers) whose content codes share four bytes, found by a birthday search at start-up and placed face to face in otherwise equal lists; added to C06 in this round",
+    "C07-m9": "NOT counted: needs array members that lack one of the SetKeys keys; every check applies the precondition C01 states (each member object carries all keys), without which the unchanged tree itself gives members one identity",
+    "C07-m10": "missed by the first version of the check (documents under MERGE were null-free on both sides); caught after nulls and empty objects were allowed on the a side (b stays null-free)",
+    "C08-m10": "missed by the first version of the check; caught after set / multiset hunks on string members of 70 ... 70000 bytes with a same-length twin differing in one byte (start, middle, end) in the target were added",
+    "C11-m9": "missed by the first version of the check; caught after gen.RepeatedBlocks (two to four sibling keys holding the same container of four or more members, all edited alike) was added",
+    "C12-m10": "NOT counted: the only effect is that a zero keeps its old sign; 0 and -0 are the same number for Equals under every reading (see D10) and for the value comparison of the oracle",
+    "C13-m10": "missed by the first version of the check; caught after patches that leave no document (@ [] with a matching removal, test+remove at the root, merge patch null, the empty patch on the empty document) were added to the cli leg, half of them with -o",
+    "C14-m10": "missed by the first version of the check (-yaml input files were written by the harness's emitter only); caught after half of the -yaml runs use jd's own Yaml() text with a newline-ended string as the last value of the file",
+    "C15-m9": "missed by the first version of the check; caught after the objects with number-like keys were also placed inside arrays nested in arrays",
+    "C15-m10": "missed by the first version of the check (documents under MERGE were null-free); caught after b may hold objects with null members under MERGE (purity is checked, the round trip is not claimed there)",
+    "C16-m9": "missed by the first version of the check; caught after every document is also read from decorated YAML (document start / end markers, directive, comment lines, trailing comment)",
+    "C17-m9": "missed by the first version of the check; caught after gen.SpellingTwins (one array holding several spellings of the same nested container, b keeping fewer) was added",
+    "C17-m10": "missed by the first version of the check; caught after set+merge and mset+merge were added to the v1 option sets (spelling twins reach it)",
     "C14-m2": "missed by the first version of the check (stdin was always a pipe); caught after a run with stdin redirected from a regular file was added",
 }
 
